@@ -30,7 +30,8 @@ UNPROVED = ["rounding behaviour for coefficients that are not exactly representa
 MANIFEST = dict(
     text=("Theorems over any commutative ring (all lengths, all coefficient values) about the Gallina model of src/polynomial: coefficient "
           "formulae of + - neg scalar-multiple product (convolution sum) and derivative, result lengths, Horner evaluation = sum a_i x^i and "
-          "is additive / multiplicative / commutes with negation and scaling, the empty polynomial is neutral for + - and absorbing for *, "
+          "is additive / multiplicative / commutes with negation and scaling, the commutative-ring laws of + and * coefficientwise (associativity "
+          "of the convolution included), the empty polynomial is neutral for + - and absorbing for *, "
           "the derivative is linear and satisfies the product rule (as equalities of coefficient lists), derivative_n p (deg+1) is empty and higher "
           "orders panic; is_zero / trim / index specifications (where == decides equality); instantiated at Qc. The same Gallina "
           "functions are run against the implementation (Rat vs Qc exact; f64 and Complex<f64> bitwise) on every pair of lengths 0..9, "
